@@ -153,19 +153,36 @@ pub fn default_set_len_three_members() {
     assert!(bufs[0].len() + bufs[1].len() + bufs[2].len() == want);
 }
 
-/// Vec<T> of three members through slice_mut(begin) + set_len: same distribution shifted by begin
+/// Vec<T> of three members (capacities 2, 3, 1) through slice_mut(begin) + dense fill + set_len(n): the bytes land at
+/// concatenation positions [begin, begin+n) — checks the (member index, offset) computed by slice_mut for every begin,
+/// including begins that skip two whole members (seeded change C10-6)
 #[kani::proof]
-#[kani::unwind(7)]
+#[kani::unwind(8)]
 pub fn vectored_slice_mut_three_members() {
-    let mut bufs = vec![mk(1, 0, 10), mk(2, 0, 20), mk(1, 0, 30)];
+    const CAPS: [usize; 3] = [2, 3, 1];
+    let mut bufs = vec![mk(2, 0, 10), mk(3, 0, 20), mk(1, 0, 30)];
     for b in bufs.iter_mut() { for c in b.spare_capacity_mut() { c.write(7); } }
-    let begin = any_le(4);
+    let begin = any_le(6);
     let mut vs = bufs.slice_mut(begin);
-    let n = any_le(4 - begin);
+    let mut total = 0usize;
+    for s in vs.iter_uninit_slice() { total += s.len(); }
+    assert!(total == 6 - begin, "writable region of the view == concatenation shifted by begin");
+    let n = any_le(total);
+    let mut k = 0usize;
+    for s in vs.iter_uninit_slice() {
+        let mut j = 0;
+        while j < s.len() && k < n { s[j].write(0xE0 + k as u8); j += 1; k += 1; }
+    }
     unsafe { SetLen::set_len(&mut vs, n) };
     let bufs = vs.into_inner();
-    let total = begin + n;   // VectoredSlice::set_len records begin + n on the underlying buffers
-    assert!(bufs[0].len() + bufs[1].len() + bufs[2].len() == total);
-    assert!(bufs[0].len() == if total > 1 { 1 } else { total });
-    assert!(bufs[2].len() == if total > 3 { total - 3 } else { 0 });
+    let end = begin + n;   // VectoredSlice::set_len records begin + n on the underlying buffers
+    assert!(bufs[0].len() + bufs[1].len() + bufs[2].len() == end);
+    assert!(bufs[0].len() == if end > 2 { 2 } else { end });
+    assert!(bufs[2].len() == if end > 5 { end - 5 } else { 0 });
+    let mut p = begin;
+    while p < end {
+        let b = if p < 2 { bufs[0][p] } else if p < 5 { bufs[1][p - 2] } else { bufs[2][p - 5] };
+        assert!(b == 0xE0 + (p - begin) as u8, "a written byte is not at its concatenation position");
+        p += 1;
+    }
 }
